@@ -171,6 +171,8 @@ PROPS['C05'] = dict(
     bounded=_CM,
     level='exploration',
     claimed=False,
+    reason='not decided: the traceback routines (dtw.best_path, dtw_best_path*) are not yet under contract; a bounded '
+           'chain sweep of the C routines exists and has recorded genuine defects with end-of-series psi (KF-C05-1)',
 )
 
 NOT_APPLICABLE = {p: 'not decided yet: machinery for this property is still being built (see DESIGN.md §9 order of work)' for p in ['C01', 'C02', 'C03', 'C04', 'C05', 'C06', 'C07', 'C08', 'C09', 'C10', 'C11', 'C12', 'C13', 'C14', 'C15', 'C16', 'C17', 'C18', 'C19', 'C20'] if p not in PROPS}
